@@ -13,6 +13,12 @@ for seed in "$@"; do
   b=$(VERIF_SEED=$seed $BIN run $id --verif-dir $PWD --no-evidence --no-ref --runs $runs --jobs 3  | tail -1 | sed 's/wall=[0-9.]*s//')
   n=$((n+1))
   if [ "$a" != "$b" ]; then bad=$((bad+1)); echo "NONDETERMINISTIC seed=$seed $id"; echo " $a"; echo " $b"; fi
+  # and the second build profile (no debug assertions, suite crates without default features) must replay the SAME event logs
+  if [ -x sim/target/nodebug/frostsim ]; then
+    c=$(VERIF_SEED=$seed sim/target/nodebug/frostsim run $id --verif-dir $PWD --no-evidence --no-ref --runs $runs --jobs 8 | tail -1 | sed 's/wall=[0-9.]*s//')
+    n=$((n+1))
+    if [ "$a" != "$c" ]; then bad=$((bad+1)); echo "BUILD PROFILES DIFFER seed=$seed $id"; echo " $a"; echo " $c"; fi
+  fi
  done
  echo "seed $seed compared ($n comparisons, $bad mismatches)"
 done
